@@ -17,7 +17,8 @@ SPEC = os.path.join(VERIF, "spec")
 EVID = os.path.join(VERIF, "evidence")
 KNOWN_FILE = os.path.join(VERIF, "known_findings.jsonl")
 
-JAVA_OPTS = "-Xss1g -Dtlc2.tool.queue.IStateQueue=StateDeque"
+JAVA_OPTS = "-Xss1g -DTLA-Library=%s" % SPEC
+DEQUE = " -Dtlc2.tool.queue.IStateQueue=StateDeque"
 
 
 class ToolError(Exception):
@@ -63,7 +64,7 @@ NOTCONS_RE = re.compile(r'<<"TRACE-NOT-CONSUMED", (\d+), (\d+)>>')
 COVER_RE = re.compile(r"^<(\w+) line (\d+), col \d+ to line \d+, col \d+ of module (\w+)>: (\d+):(\d+)", re.M)
 
 
-def run_tlc(module_path, cfg, tag, env_extra=None, workers=1, timeout=900, extra=None, xmx="4g"):
+def run_tlc(module_path, cfg, tag, env_extra=None, workers=1, timeout=900, extra=None, xmx="4g", deque=False):
     """Run TLC; returns a dict. Raises ToolError for parse errors / timeouts / evaluation errors."""
     d = os.path.dirname(module_path)
     meta = os.path.join(WORK, "tlc", tag)
@@ -71,7 +72,7 @@ def run_tlc(module_path, cfg, tag, env_extra=None, workers=1, timeout=900, extra
     os.makedirs(meta, exist_ok=True)
     out_path = os.path.join(meta, "tlc.out")
     env = dict(os.environ)
-    env["JAVA_TOOL_OPTIONS"] = JAVA_OPTS + " -Xmx" + xmx
+    env["JAVA_TOOL_OPTIONS"] = JAVA_OPTS + (DEQUE if deque else "") + " -Xmx" + xmx
     if env_extra:
         env.update(env_extra)
     cmd = ["timeout", str(timeout), "tlc", "-workers", str(workers), "-metadir", os.path.join(meta, "states"),
@@ -215,7 +216,7 @@ class Ctx:
 
     # -- harness + monitor -------------------------------------------------------------
     def sim(self, family, n, monitor, cfg, seed_off=0, batch=400, extra_args=None, nontrivial=None, scenarios_file=None,
-            package="vh", subcmd="sim", par=6):
+            package="vh", subcmd="sim", par=6, conf=None):
         """Run `n` scenarios of a family through the real code, then validate the log(s) with the monitor."""
         binp = self.bin(package)
         seed = self.seed + seed_off
@@ -245,13 +246,29 @@ class Ctx:
             if r.returncode != 0:
                 raise ToolError("harness failed: %s\n%s" % (" ".join(cmd), r.stdout[-3000:]))
             tag = "%s-%s-%s" % (self.prop, family, os.path.basename(logp).split(".")[0])
-            tr = run_tlc(os.path.join(SPEC, monitor), cfg, tag, env_extra={"TRACE": logp}, workers=1, timeout=2400)
-            return job, tr
+            tr = run_tlc(os.path.join(SPEC, monitor), cfg, tag, env_extra={"TRACE": logp}, workers=1, timeout=2400, deque=True)
+            cr = None
+            if conf:
+                try:
+                    cr = run_tlc(os.path.join(SPEC, conf[0]), conf[1], tag + "-conf", env_extra={"TRACE": logp}, workers=1,
+                                 timeout=2400, deque=True)
+                except ToolError as e:
+                    cr = {"violated": "tool-error: %s" % e, "not_consumed": None, "out": ""}
+            return job, tr, cr
 
         with concurrent.futures.ThreadPoolExecutor(max_workers=par) as ex:
             results = list(ex.map(one, jobs))
         fam = {"family": family, "scenarios": 0, "events": 0, "monitor": monitor, "cfg": cfg, "delivered": {}}
-        for (cmd, logp, stats, scs), tr in results:
+        for (cmd, logp, stats, scs), tr, cr in results:
+            if cr is not None:
+                fam.setdefault("conformance", {"spec": conf[0], "logs": 0, "rejected": 0})
+                fam["conformance"]["logs"] += 1
+                if cr["violated"]:
+                    fam["conformance"]["rejected"] += 1
+                    line = cr["not_consumed"][0] if cr.get("not_consumed") else 0
+                    self.drift.append({"family": family, "clause": cr["violated"], "log": logp, "line": line})
+                    log("MODEL-DRIFT property=%s clause=%s at %s line %s (not a violation: the implementation-shaped model no longer matches the code)"
+                        % (self.prop, cr["violated"], logp, line))
             st = json.load(open(stats))
             fam["scenarios"] += len(st)
             nlines = sum(1 for _ in open(logp))
